@@ -347,6 +347,13 @@ PROPS["C05"] = {
         {"id": "container_layout_seed", "crate": "gen",
          "quick": ["c04::c04_object_with_context_words", "c04::c04_container_order_with_context_and_ret_tmp", "c04::c04_group_words"],
          "rustflags": _LAYOUT_SEED_FLAGS, "timeout": 900},
+        # (a struct with two sized fields keeps its declared order under one seed out of two: a second and third seed)
+        {"id": "container_layout_seed_b", "crate": "gen",
+         "quick": ["c04::c04_object_with_context_words", "c04::c04_container_order_with_context_and_ret_tmp", "c04::c04_group_words"],
+         "rustflags": _LAYOUT_SEED_FLAGS.replace("layout-seed=", "layout-seed=20"), "timeout": 900},
+        {"id": "container_layout_seed_c", "crate": "gen",
+         "quick": ["c04::c04_object_with_context_words", "c04::c04_container_order_with_context_and_ret_tmp", "c04::c04_group_words"],
+         "rustflags": _LAYOUT_SEED_FLAGS.replace("layout-seed=", "layout-seed=30"), "timeout": 900},
     ],
     "negative": ["c05::c05_negative_twin"],
     "bounds": "two-role model inside one build: values fabricated through their C view by a plugin role with its own function "
